@@ -108,6 +108,8 @@ def write_evidence(ctx, res, wall, nviol):
         'violations': nviol,
     }
     d = os.path.join(VERIF, 'evidence')
+    if os.environ.get('VERIF_NOEVIDENCE'):
+        d = os.path.join(VERIF, 'replays', '_scratch_evidence')
     os.makedirs(d, exist_ok=True)
     p = os.path.join(d, ctx.property_id + '.json')
     tmp = p + '.tmp%d' % os.getpid()
